@@ -105,3 +105,12 @@ Definition workers_ok : bool :=
 Definition conds_ok : bool :=
   list_eqb (fun a b => String.eqb (fst a) (fst b) && String.eqb (fst (snd a)) (fst (snd b)) && Bool.eqb (snd (snd a)) (snd (snd b)))
            pathcond_defs ref_conds.
+
+(* nothing between a backend call and the dispatcher stops a PathIOError: the handlers, helpers and workers
+   that reach the backend and the decorators they run under contain no `with` (contextlib.suppress ...) and
+   no try whose except clauses name anything but CancelledError / TimeoutError *)
+Definition propagates_ok : bool :=
+  forallb (fun e => let '(_, (kind, classes)) := e in
+                    (String.eqb kind "try" || String.eqb kind "try;finally")
+                    && forallb (fun c => mem_s c ["asyncio.CancelledError"; "asyncio.TimeoutError"]) classes)
+          local_catch_sites.
